@@ -185,9 +185,9 @@ class Gen:
             t = rng.choice([1, 2, 3, 4, 5, 6, 0, 7, -1])
             n = DIGSZ.get(t, 16)
             return f"set_digest {t} {rng.choice([rand_hex(rng, n), '00' * n, 'ff' * 64, '01'])}"
-        if r < 0.975:
+        if r < 0.97:
             return 'copy_stat ' + self.stat_args()
-        if r < 0.99:
+        if r < 0.992:
             return 'stat'
         self.size = 0
         self.end = 0
@@ -213,6 +213,11 @@ ENUM_OPS = [
     'clear', 'clone', 'c:set_size 7', 'c:copy_symlink 67', 'c:xattr_add 64 65', 'c:clear',
 ]
 
+
+STAT_SETTERS = ['set_atime 1 2', 'set_ctime 3 4', 'set_mtime 5 6', 'set_birthtime 7 8', 'unset_atime', 'unset_ctime', 'unset_mtime',
+                'unset_birthtime', 'set_dev 9', 'set_devmajor 1', 'set_devminor 2', 'set_rdev 10', 'set_rdevmajor 3', 'set_rdevminor 4',
+                'set_ino 11', 'set_ino64 12', 'set_nlink 13', 'set_uid 14', 'set_gid 15', 'set_size 16', 'unset_size', 'set_mode 16877',
+                'set_perm 448', 'set_filetype 40960', 'copy_stat 1 1 1 1 1 1 1 1 1 1 1 1 1 1', 'clear']
 
 # third position of the thorough-tier triples: the observers and the operations whose effect depends on history
 ENUM3_OPS = [o for o in ENUM_OPS if o.split()[0] in (
@@ -251,6 +256,11 @@ class Ent(Engine):
                 ops.append(g.ub_time_op() if rng.random() < 0.7 else 'copy_stat ' + g.stat_args(allow_ub=True))
                 ops.append('stat')
             yield Case(f'rand{i}', ops)
+        # stale struct-stat cache: stat, one field setter, stat again (every setter that must invalidate the cache)
+        ops = []
+        for st in STAT_SETTERS:
+            ops += ['copy_stat 7 7 7 7 7 7 7 7 7 7 7 7 7 33188', 'stat', st, 'stat', 'clone', 'c:stat', 'reset']
+        yield Case('statcache', ops)
         # exhaustive small scope over the reduced alphabet; histories are separated by `reset` and batched per
         # process (one fork per first operation / per first two operations)
         if tier == 'quick':
@@ -309,6 +319,13 @@ class Ent(Engine):
                 if bad:
                     return f'op {idx} ({op}): sparse list of the {who} is {bad}: {d["sps"]}'
             tgt = c if on_clone else m
+            if name == 'stat':
+                st = m['r'].split(',')
+                want = (tgt['at'].split(',')[:2] + tgt['ct'].split(',')[:2] + tgt['mt'].split(',')[:2] +
+                        [tgt['dev'].split(',')[0], str(int(tgt['gid'].split(',')[0]) % 2**32), str(int(tgt['uid'].split(',')[0]) % 2**32),
+                         tgt['ino'].split(',')[0], tgt['nl'], tgt['rdev'].split(',')[0], tgt['sz'].split(',')[0], tgt['mode']])
+                if st != want:
+                    return f'op {idx} ({op}): archive_entry_stat() returns {",".join(st)} but the getters say {",".join(want)}'
             o = self.setter_check(name, w, tgt)
             if o:
                 return f'op {idx} ({op}): {o}'
